@@ -111,6 +111,8 @@ type Path struct {
 	depth    int
 	entered  bool
 	shareNames bool
+	staleGiven bool
+	pooledMaps map[*MapObj]*pooledState
 	eqIgnoreFuncs bool
 	eqSeen map[[2]*Object]bool
 	released map[*Object]bool // objects handed back to a sync.Pool
